@@ -83,6 +83,11 @@ TEXT = {
         "level_text": "Exploration: exact per-event delivery sets in the sequential mode (every step runs to completion, FIFO sentinel flush instead of sleeps), sampled Go-scheduler interleavings in the concurrent mode (also under -race in thorough), and bounded-time publisher progress with a stalled subscriber.",
         "level_note": "Trusted: registry model + real-time rule (DESIGN.md A.3). Concurrent mode samples the scheduler; it cannot enumerate interleavings inside the registry's locks. 'Never delays publishers' is a 10 s bound (normal: microseconds).",
     },
+    "C15": {
+        "technique": "property-based testing (rapid) of generated concurrent programs: recorded invocation/response histories checked for linearizability with porcupine against the deterministic store model; looped writer/reader stress templates with atomicity invariants on every query result; both also under the Go race detector",
+        "level_text": "Exploration of sampled scheduler interleavings: barrier-started rounds concentrate operations on one hot event (versions, deletion request vs target, re-offers) so that conflicting calls overlap; histories are decided exactly by a linearizability checker, and the stress mode runs hundreds of thousands of calls per run against the invariants.",
+        "level_note": "Trusted: porcupine v1.3.0, harness/model/detstore.go. Interleavings come from the Go scheduler, not from a controlled scheduler: a lock released a few instructions early can be missed; the race detector is what catches missing synchronisation.",
+    },
     "C10": {
         "technique": "property-based testing (rapid): grammar-generated wire texts with near-miss mutations against a no-panic / completeness / decode-encode-decode oracle, value round trips for all 14 types, repository corpus replay; native go fuzz target in the thorough tier",
         "level_text": "Exploration: tens of thousands of generated and mutated JSON texts per run go through ParseClientMsg and json.Unmarshal of all 14 exported types (no panic, complete value, idempotent re-decode), and generated values of every type are round-tripped; thorough adds a coverage-guided fuzz campaign with the same oracle inside the target.",
